@@ -33,8 +33,11 @@ RULE = (
     "(not claimed). Non-trivial = >= 2 reads and (a position change, a read crossing the end, or a reopen)."
 )
 MUST_HIT = ["negative_position_bps>1", "past_end_buffer", "past_end_raw", "past_end_wav", "past_end_stdin",
-            "read_unopened", "index_error", "reopen_buffer", "read_all_remaining"]
-ASSUMPTIONS = ["read(0) is not generated (the statement speaks of n>=1, None and negative n)"]
+            "read_unopened", "index_error", "reopen_buffer", "read_all_remaining", "read_zero"]
+ASSUMPTIONS = [
+    "read(0) must return None (a chunk of min(0, remaining) = 0 samples, and never b'') and leave the cursor where it is",
+    "what a raw/wav/stdin source does after close()+open() is not claimed by the statement: those kinds are never reopened",
+]
 BOUNDS = {"quick": dict(n=250, steps=30), "thorough": dict(n=5000, steps=50)}
 KINDS = ("buffer", "raw", "wav", "stdin")
 _ctr = [0]
@@ -174,6 +177,8 @@ class Interp:
                 self.nreads += 1
                 if n is None or n < 0:
                     self.classes.add("read_all_remaining")
+                elif n == 0:
+                    self.classes.add("read_zero")
                 elif n >= rem:
                     self.classes.add("past_end_" + ("stdin" if self.kind == "pipe" else self.kind))
                     if self.nreads >= 2:
@@ -293,6 +298,11 @@ def make_machine(kinds):
         def read(self, n):
             self.it.apply(["read", n])
 
+        @rule()
+        def read_zero(self):
+            # min(0, remaining) = 0 samples and never b'' -> None, cursor unchanged
+            self.it.apply(["read", 0])
+
         @rule(n=st.one_of(st.none(), st.integers(-5, -1)))
         def read_all(self, n):
             self.it.apply(["read_all", n])
@@ -344,7 +354,7 @@ def explicit_cases():
         {"cfg": cfg, "ops": [["read", 2], ["open"], ["read", 5], ["get_pos"], ["pos", -3], ["read", 10], ["read", 1],
                              ["pos", 13], ["pos", -13], ["pos_s", -0.5], ["get_pos"], ["pos_ms", 700], ["read_all", None],
                              ["read_all", -1], ["close"], ["read", 1], ["open"], ["read", 3], ["rewind"], ["read", 1]]},
-        {"cfg": dict(cfg, kind="raw"), "ops": [["read", 1], ["open"], ["read", 5], ["read", 20], ["read", 1], ["close"], ["read", 1]]},
+        {"cfg": dict(cfg, kind="raw"), "ops": [["read", 1], ["open"], ["read", 5], ["read", 0], ["read", 20], ["read", 1], ["close"], ["read", 1]]},
         {"cfg": dict(cfg, kind="wav"), "ops": [["open"], ["read", 11], ["read_all", -2], ["read_all", None], ["read", 3]]},
         {"cfg": dict(cfg, kind="stdin", sw=4), "ops": [["read", 1], ["open"], ["read", 5], ["read", 7], ["read", 1], ["read", 1]]},
         {"cfg": dict(cfg, kind="pipe", sw=4, ch=3, chunks=[5, 1, 7]), "ops": [["open"], ["read", 5], ["read", 6], ["read", 4], ["read", 1]]},
